@@ -183,9 +183,16 @@ class Server:
         self.start()
 
     def start(self):
+        def big_stack():
+            import resource
+            try:
+                resource.setrlimit(resource.RLIMIT_STACK, (resource.RLIM_INFINITY, resource.RLIM_INFINITY))
+            except Exception:
+                pass
         self.p = subprocess.Popen(self.argv, stdin=subprocess.PIPE, stdout=subprocess.PIPE,
                                   stderr=subprocess.DEVNULL, text=True, bufsize=1,
-                                  env=dict(os.environ, **(self.env or {})))
+                                  env=dict(os.environ, **(self.env or {})),
+                                  preexec_fn=big_stack if self.name == "model" else None)
 
     def cmd(self, line):
         self.ncmd += 1
